@@ -64,7 +64,10 @@ def cases(rng, tier):
                 ops += [("S", rng.below(ntypes), rng.below(nctx)) for _ in range(cap)]
         if rng.chance(1, 2):
             ops += [("R",), ("O",)]
-        out.append(shardprop.mk_case("compact" + ("+crash" if crash else ""), cfg, ntypes, nctx, ops))
+        if not crash and i % 2 == 1:
+            # every second crash-free history reads in the middle of each round (after every batch's live-list update)
+            ops = [("CSNAP", "read") if o[0] == "C" else o for o in ops]
+        out.append(shardprop.mk_case("compact" + ("+crash" if crash else "") + ("+midread" if not crash and i % 2 == 1 else ""), cfg, ntypes, nctx, ops))
     # one event per zone and memtables of 33..45 events: the merged output of one type exceeds 64 zones in a
     # single batch (size thresholds inside the merge / zone writer)
     for j in range(1 if tier == "quick" else 20):
@@ -93,6 +96,17 @@ def cases(rng, tier):
         ops += [("S", 0, rng.below(nctx)) for _ in range(cap)]
         ops += [("O",), ("C",), ("O",), ("C",), ("O",)]
         out.append(shardprop.mk_case("compact-index-fault-retry", cfg, ntypes, nctx, ops))
+    # two batches in one round (two event types in disjoint segment sets), the second type's input is unreadable: whether
+    # or not the healthy batch ran first, afterwards every event is readable exactly once and COUNT is the selection
+    for j in range(2 if tier == "quick" else 24):
+        cfg = dict(rng.choice(shardprop.CFGS)); cfg["segments_per_merge"] = 2
+        nctx = rng.range(1, 2)
+        cap = cfg["fill_factor"] * cfg["event_per_zone"]
+        ops = []
+        for u in (0, 0, 1, 1):
+            ops += [("S", u, rng.below(nctx)) for _ in range(cap)]
+        ops += [("O",), ("HIDE", 2 + rng.below(2), 1), ("C",), ("O",), ("UNHIDE",), ("O",), ("C",), ("O",)]
+        out.append(shardprop.mk_case("compact-two-batches-one-fails", cfg, 2, nctx, ops))
     # a lone segment climbs one level per round (fan-in 2): after ten rounds its directory name has six digits
     # (100000); the events must survive a restart at every level
     for j in range(1 if tier == "quick" else 6):
